@@ -114,7 +114,7 @@ func TestLateProposalScript(t *testing.T) {
 		n   int
 		byz []int
 	}{{4, []int{0}}, {4, []int{2}}, {5, []int{1}}, {7, []int{0, 3}}, {7, []int{6}}} {
-		for a := 0; a < 4; a++ {
+		for a := 0; a < 8; a++ {
 			dir, _ := os.MkdirTemp("", "simlp")
 			ps := make([]int64, cfg.n)
 			bz := make([]bool, cfg.n)
